@@ -188,6 +188,7 @@ class ColumnBackend(PolarsSchemaBackend):
                     f"Error while coercing '{schema.selector}' to type "
                     f"{schema.dtype}: {exc}"
                 ),
+                failure_cases=exc.failure_cases,
                 check=f"coerce_dtype('{schema.dtype}')",
                 reason_code=SchemaErrorReason.DATATYPE_COERCION,
             ) from exc
